@@ -100,7 +100,7 @@ func c38Gen(r *core.Rand, tier string) any {
 				sc.Ops = append(sc.Ops, c38Op{Kind: "heal"})
 				isolated = false
 			}
-		case x < 93:
+		case x < 92:
 			if !crashed {
 				sc.Ops = append(sc.Ops, c38Op{Kind: "crash", N: r.Intn(8)})
 				crashed = true
@@ -108,6 +108,25 @@ func c38Gen(r *core.Rand, tier string) any {
 				sc.Ops = append(sc.Ops, c38Op{Kind: "restart"})
 				crashed = false
 			}
+		case x < 97:
+			// a tail of entries that never reach the FSM, then a snapshot that truncates
+			// the log right behind the tail
+			for k := r.Range(2, 3); k > 0; k-- {
+				switch r.Intn(3) {
+				case 0:
+					if total < sc.Max {
+						total++
+						sc.Ops = append(sc.Ops, c38Op{Kind: "join", Voter: r.Bool(0.5)})
+						continue
+					}
+					fallthrough
+				case 1:
+					sc.Ops = append(sc.Ops, c38Op{Kind: "barrier"})
+				default:
+					sc.Ops = append(sc.Ops, c38Op{Kind: "remove", N: r.Intn(8)})
+				}
+			}
+			sc.Ops = append(sc.Ops, c38Op{Kind: "snapshot", N: 1}, c38Op{Kind: "probe", Ms: r.Range(100, 1500)})
 		default:
 			sc.Ops = append(sc.Ops, c38Op{Kind: "run", Ms: r.Range(50, 3000)})
 		}
